@@ -238,6 +238,10 @@ def main():
         # tools/muttriage.py has set aside the mutants that are equivalent by inspection
         muts = [json.loads(l) for l in open(out + "/triage.jsonl")]
         muts = [r for r in muts if r["verdict"] == "test"]
+        # a full quick check costs minutes per mutant: the survivors are visited in a fixed
+        # pseudo-random order so that a run stopped early is an unbiased sample over files
+        import hashlib
+        muts.sort(key=lambda r: hashlib.sha1(("%s#%d" % (r["file"], r["n"])).encode()).hexdigest())
         print("stage-1 survivors:", len(muts), flush=True)
         run_stage(stage2_one, muts, workers, out + "/stage2.jsonl", load(out + "/stage2.jsonl"))
     elif stage == "stage3":
